@@ -78,6 +78,25 @@ pub fn run<C: NatCtx>(v: &mut Env<C>) {
                 });
             }
         }
+        // gen_shuffle end to end: permutation from the RNG byte tape, exponents from the value tape
+        for nn in [0usize, 1, 2, 5, 12] {
+            let sk = v.rnd_exp();
+            let s = p_shuffle::setup(v, &sk, nn, b"gs");
+            let cts = p_shuffle::make_cts(v, &s, nn, 1);
+            let rs: Vec<BigUint> = (0..nn).map(|_| v.rnd_exp()).collect();
+            let bytes = v.h.rng.bytes(4 * nn * 8 + 16);
+            let ctx2 = ctx.clone();
+            let (ctsc, rsc, bc) = (cts.clone(), rs.clone(), bytes.clone());
+            v.case("gen_shuffle", vec![n(&s.pkv), p_shuffle::vcts(&cts), b(&bytes), p_shuffle::vnats(&rs)], || {
+                let sh = Shuffler::new(&s.pk, &s.gens, &ctx2);
+                load_tape(&rsc);
+                let (r, used) = with_byte_tape(&bc, || sh.gen_shuffle(&ctsc));
+                match r {
+                    Some((outs, rso, perm)) => Out::Ok(l(vec![p_shuffle::vcts(&outs), l(rso.iter().map(|x| Val::Nat(C::x_val(x))).collect()), p_shuffle::vperm(&perm), nu(used as u64)])),
+                    None => Out::Panic,
+                }
+            });
+        }
         // chi-square over all N! permutations (a statistical TEST of the implementation's RNG use)
         for nn in [3usize, 4, 5] {
             let perms = p_shuffle::permutations(nn);
